@@ -677,7 +677,9 @@ impl Generator {
                 let installed_vargpos = t.surgery.iter().any(|s| matches!(s, Surgery::InstallVarGpos { .. }));
                 let targets: Vec<String> = (0..2)
                     .map(|_| {
-                        if installed_vargpos && rng.pct(75) {
+                        if t.surgery.iter().any(|s| matches!(s, Surgery::InstallReverseChain { .. })) && rng.pct(75) {
+                            "GSUB".to_string()
+                        } else if installed_vargpos && rng.pct(75) {
                             if rng.pct(50) { "GDEF".to_string() } else { "GPOS".to_string() }
                         } else if installed_kern && rng.pct(75) {
                             "kern".to_string()
@@ -1460,6 +1462,12 @@ fn gen_install(rng: &mut Rng, info: &FontInfo, prop: &str) -> Option<(FontInfo, 
         "C09" => (0, 0, 0, 6, 22, 4, 10),
         _ => (7, 4, 8, 6, 6, 3, if info.axes > 0 { 20 } else { 4 }),
     };
+    let p_rchain = match prop {
+        "C02" => 6,
+        "C03" => 2,
+        "C09" => 0,
+        _ => 3,
+    };
     let p_vargpos = match prop {
         "C02" => 45,
         "C03" => 40,
@@ -1469,9 +1477,10 @@ fn gen_install(rng: &mut Rng, info: &FontInfo, prop: &str) -> Option<(FontInfo, 
     let mut surgeries = Vec::new();
     let mut focus: Option<Vec<u32>> = None;
     let want_vargpos = info.axes > 0 && rng.pct(p_vargpos);
-    let want_morx = !want_vargpos && rng.pct(p_morx);
-    let want_kern = !want_vargpos && !want_morx && rng.pct(p_kern);
-    if (want_morx || want_kern || want_vargpos) && info.char_gids.len() >= 2 && info.num_glyphs >= 3 {
+    let want_rchain = !want_vargpos && rng.pct(p_rchain);
+    let want_morx = !want_vargpos && !want_rchain && rng.pct(p_morx);
+    let want_kern = !want_vargpos && !want_rchain && !want_morx && rng.pct(p_kern);
+    if (want_morx || want_kern || want_vargpos || want_rchain) && info.char_gids.len() >= 2 && info.num_glyphs >= 3 {
         // a run of neighbouring mapped characters with distinct non-zero glyph ids
         let want = 3 + rng.usize_below(22);
         let start = rng.usize_below(info.char_gids.len());
@@ -1491,7 +1500,12 @@ fn gen_install(rng: &mut Rng, info: &FontInfo, prop: &str) -> Option<(FontInfo, 
                 // order other than first appearance
                 glyphs.reverse();
             }
-            if want_vargpos {
+            if want_rchain {
+                surgeries.push(Surgery::InstallReverseChain {
+                    glyphs,
+                    variant: rng.below(1 << 16),
+                });
+            } else if want_vargpos {
                 surgeries.push(Surgery::InstallVarGpos {
                     glyphs,
                     variant: rng.below(1 << 16),
@@ -1575,6 +1589,10 @@ fn gen_install(rng: &mut Rng, info: &FontInfo, prop: &str) -> Option<(FontInfo, 
             modified.gsub_features.clear();
         } else {
             modified.gpos_features.clear();
+        }
+        if want_rchain {
+            modified.gsub_features = vec![(crate::trace::tag_from_str("calt"), vec![0, 1])];
+            modified.scripts = vec!["latn".to_string(), "DFLT".to_string()];
         }
         if want_vargpos {
             modified.gpos_features = vec![(crate::trace::tag_from_str("kern"), vec![0, 1])];
